@@ -151,6 +151,9 @@ class Fn:
         self.ret_kind = None
         self.void_outs = None
         self.prelude = ''
+        self.salias = {}          # struct pointer local -> (base struct parameter, Lean term of the begin offset)
+        self.salias_pre = {}      # pre-pass: struct pointer local -> base struct parameter
+        self.wfields = set()      # pre-pass: (base struct, field) of array fields written through `X->f[i] = e`
         self.loops = []           # enclosing loops being translated: dict(t=state tuple, inc=[..], brk=flag name or None)
         self.brk_no = 0
 
@@ -262,15 +265,14 @@ class Fn:
                 return '(%s %s %s)' % (nm, self.as_int(sub['inner'][1]), self.as_int(n['inner'][1]))
             raise CTransError('%s: unsupported global array' % self.name)
         if k == 'ArraySubscriptExpr' and strip(n['inner'][0]).get('kind') == 'MemberExpr':
-            # `P->values[i]`: a read-only array field of a struct parameter -> function parameter
-            mb = strip(n['inner'][0])
-            sb = strip(mb['inner'][0])
-            if sb.get('kind') != 'DeclRefExpr':
-                raise CTransError('%s: array field of a non-parameter' % self.name)
-            fnm = '%s_%s' % (sb['referencedDecl']['name'], mb['name'])
+            # `P->values[i]`: an array field of a struct parameter -> function parameter (a memory if the function writes it)
+            mem, idx, x, f = self.field_cell(n)
+            if mem:
+                return '(%s %s)' % (V(mem), idx)
+            fnm = '%s_%s' % (x, f)
             ek = self.expr_kind(n)
-            self.free(V(fnm), 'p:' + ek, ('field', sb['referencedDecl']['name'], mb['name']))
-            return '(%s %s)' % (V(fnm), self.as_int(n['inner'][1]))
+            self.free(V(fnm), 'p:' + ek, ('field', x, f))
+            return '(%s %s)' % (V(fnm), idx)
         if k == 'ArraySubscriptExpr':
             base, idx = n['inner']
             base = strip(base)
@@ -413,6 +415,26 @@ class Fn:
                 raise CTransError('%s: parameter origin %r' % (self.name, org))
         return out
 
+    def field_cell(self, n):
+        """for `X->f[i]`: (memory name or None, Lean index term, base struct, field)"""
+        mb = strip(n['inner'][0])
+        sb = strip(mb['inner'][0])
+        if sb.get('kind') != 'DeclRefExpr':
+            raise CTransError('%s: array field of a non-parameter' % self.name)
+        x = sb['referencedDecl']['name']
+        idx = self.as_int(n['inner'][1])
+        if x in self.salias:
+            base, beg = self.salias[x]
+            idx = '(%s + %s)' % (beg, idx)
+            x = base
+        if (x, mb['name']) in self.wfields:
+            mem = 'mem1_%s_%s' % (x, mb['name'])
+            if mem not in self.locals:
+                self.locals[mem] = 'm1i'
+                self.free(V(mem), 'm1i', ('field', x, mb['name']))
+            return mem, idx, x, mb['name']
+        return None, idx, x, mb['name']
+
     def ptr_expr(self, n):
         """(memory name, Lean row term, Lean offset term) of a pointer-valued expression: a pointer local, a call of
         mzd_row / mzd_row_const, or one of these plus/minus an integer"""
@@ -438,6 +460,11 @@ class Fn:
     def target(self, n):
         """(memory name, Lean row term, Lean index term) of the cell an lvalue `p[i]` / `*p` / `*p++` denotes"""
         n = strip(n)
+        if n.get('kind') == 'ArraySubscriptExpr' and strip(n['inner'][0]).get('kind') == 'MemberExpr':
+            mem, idx, x, f = self.field_cell(n)
+            if not mem:
+                raise CTransError('%s: store into an array field not seen by the pre-pass' % self.name)
+            return mem, '', idx
         if n.get('kind') == 'ArraySubscriptExpr' and not (strip(n['inner'][0]).get('kind') == 'DeclRefExpr'):
             mem, row, off = self.ptr_expr(n['inner'][0])
             return mem, row, '(%s + %s)' % (off, self.as_int(n['inner'][1]))
@@ -547,6 +574,13 @@ class Fn:
                     nm = 'deref_' + strip(t['inner'][0])['referencedDecl']['name']
                     if nm not in out:
                         out.append(nm)
+                elif n.get('kind') != 'UnaryOperator' and t.get('kind') == 'ArraySubscriptExpr' and \
+                        strip(t['inner'][0]).get('kind') == 'MemberExpr':
+                    mb = strip(t['inner'][0]); sb = strip(mb['inner'][0])
+                    if sb.get('kind') == 'DeclRefExpr':
+                        nm = 'mem1_%s_%s' % (self.base_of(sb['referencedDecl']['name']), mb['name'])
+                        if nm not in out:
+                            out.append(nm)
                 elif n.get('kind') != 'UnaryOperator':
                     b = t
                     if b.get('kind') == 'ArraySubscriptExpr':
@@ -631,6 +665,11 @@ class Fn:
                 rhs = self.value(n['inner'][1])
                 mem, row, idx = self.target(t)
                 old = '(%s %s %s)' % (V(mem), row, idx)
+                if self.locals.get(mem) == 'm1i':
+                    m = {'+': '(%s + %s)', '-': '(%s - %s)', '*': '(%s * %s)'}
+                    if op not in m:
+                        raise CTransError('%s: compound store %s= into an integer array' % (self.name, op))
+                    return mem, '(CLoop.upd1 %s %s %s)' % (V(mem), idx, m[op] % (old, rhs))
                 if op in ('<<', '>>'):
                     new = '(%s %s (%s).toNat)' % (old, '<<<' if op == '<<' else '>>>', self.as_int(n['inner'][1]))
                 else:
@@ -710,6 +749,22 @@ class Fn:
                 if dk == 'p:w' and init:
                     out += self.decl_pointer(nm, init[0], pad)
                     continue
+                if dk == 'p:?' and init and nm in self.salias_pre:
+                    c0 = strip(init[0])
+                    a = strip(c0['inner'][1])
+                    while a.get('kind') in ('CStyleCastExpr', 'ImplicitCastExpr'):
+                        a = strip(a['inner'][0])
+                    x = a['referencedDecl']['name']
+                    beg = self.value(c0['inner'][2])
+                    if x in self.salias:
+                        beg = '(%s + %s)' % (self.salias[x][1], beg)
+                        x = self.salias[x][0]
+                    bv = '%s__begin' % V(nm)
+                    out += '%slet %s : Int := %s\n' % (pad, bv, beg)
+                    self.salias[nm] = (x, bv)
+                    continue
+                if dk == 'p:?':
+                    continue          # other struct pointer locals (windows of matrices): only used by untranslated calls
                 if dk not in LTYPE:
                     raise CTransError('%s: declaration of %s with unsupported type %r' % (self.name, nm, d['type']['qualType']))
                 self.locals[nm] = dk
@@ -886,6 +941,36 @@ class Fn:
 
     def prepass(self, body):
         """memory of every pointer local (needed by `assigned` before the declaration is translated)"""
+        def base_of(name):
+            seen = 0
+            while name in self.salias_pre and seen < 10:
+                name = self.salias_pre[name]; seen += 1
+            return name
+
+        def walk0(n):
+            if n.get('kind') == 'VarDecl' and kind_of(n['type']['qualType']) == 'p:?':
+                init = [c for c in n.get('inner', []) if isinstance(c, dict) and not c.get('kind', '').endswith('Comment')]
+                if init:
+                    c0 = strip(init[0])
+                    if c0.get('kind') == 'CallExpr' and strip(c0['inner'][0]).get('referencedDecl', {}).get('name') == 'mzp_init_window':
+                        a = strip(c0['inner'][1])
+                        while a.get('kind') in ('CStyleCastExpr', 'ImplicitCastExpr'):
+                            a = strip(a['inner'][0])
+                        if a.get('kind') == 'DeclRefExpr':
+                            self.salias_pre[n['name']] = a['referencedDecl']['name']
+            if (n.get('kind') == 'BinaryOperator' and n.get('opcode') == '=') or n.get('kind') == 'CompoundAssignOperator':
+                t = strip(n['inner'][0])
+                if t.get('kind') == 'ArraySubscriptExpr' and strip(t['inner'][0]).get('kind') == 'MemberExpr':
+                    mb = strip(t['inner'][0]); sb = strip(mb['inner'][0])
+                    if sb.get('kind') == 'DeclRefExpr':
+                        self.wfields.add((sb['referencedDecl']['name'], mb['name']))
+            for c in n.get('inner', []):
+                if isinstance(c, dict):
+                    walk0(c)
+        walk0(body)
+        self.wfields = set((base_of(a), f) for a, f in self.wfields)
+        self.base_of = base_of
+
         def walk(n):
             if n.get('kind') == 'VarDecl' and kind_of(n['type']['qualType']) == 'p:w':
                 init = [c for c in n.get('inner', []) if isinstance(c, dict) and not c.get('kind', '').endswith('Comment')]
@@ -1173,14 +1258,25 @@ class Translator:
                 term = fn.seq(stmts, lambda: (_ for _ in ()).throw(CTransError('%s: control reaches the end without return' % cname)), 1)
                 rty = fn.ret_lean_type()
         else:
-            start, end, outs = slice_['start'], slice_['end'], slice_['outs']
-            stmts = find_slice(body, start, end, cname, slice_.get('nth', 0), slice_.get('expect', 1))
+            outs = slice_['outs']
             fn.prepass(body)
+            if 'after' in slice_:
+                stmts = find_after(body, slice_['after'], slice_['take_for'], cname)
+            else:
+                start, end = slice_['start'], slice_['end']
+                stmts = find_slice(body, start, end, cname, slice_.get('nth', 0), slice_.get('expect', 1))
             fn.ret_kind = None
             # declarations preceding the slice that the slice assigns (e.g. `rci_t mmm, kkk, nnn;`)
             for nm, ty in slice_.get('predeclared', {}).items():
                 fn.locals[nm] = ty
             pre = ''.join('  let %s : %s := %s\n' % (V(nm), LTYPE[ty], fn.lit(0, ty)) for nm, ty in slice_.get('predeclared', {}).items())
+            for o_ in outs:
+                if o_.startswith('mem1_') and o_ not in fn.locals:
+                    fn.locals[o_] = 'm1i'
+                    fn.free(V(o_), 'm1i', ('field',) + tuple(o_[5:].split('_', 1)))
+                if o_.startswith('mem_') and o_ not in fn.locals:
+                    fn.locals[o_] = 'm2'
+                    fn.free(V(o_), 'm2', ('mem', o_[4:]))
             term = pre + fn.seq(stmts, lambda: fn.tup(outs), 1)
             rty = fn.tup_type(outs)
         params = ' '.join('(%s : %s)' % (n, lean_type(k)) for n, k in fn.params)
@@ -1190,7 +1286,7 @@ class Translator:
                                     params=[(n_, k_, fn.origin[n_]) for n_, k_ in fn.params], void_outs=fn.void_outs,
                                     outparams=list(fn.outparams), ret_mems=list(fn.ret_mems))
         self.out.append('/-- %s `%s`%s%s -/\ndef %s %s : %s :=\n%s\n' % (
-            cfile, cname, ' (slice %s .. %s)' % (slice_['start'], slice_['end']) if slice_ else '', (' — ' + doc) if doc else '',
+            cfile, cname, ' (slice %s .. %s)' % (slice_.get('start', 'after ' + str(slice_.get('after'))), slice_.get('end', '%s for-loops' % slice_.get('take_for'))) if slice_ else '', (' — ' + doc) if doc else '',
             lname, params, rty, term))
         self.meta.append(dict(file=cfile, function=cname, lean=lname, params=[n for n, _ in fn.params], slice=bool(slice_), loops=fn.loop_no))
 
@@ -1203,6 +1299,32 @@ def declares_or_assigns(s, var):
         t = strip(s['inner'][0])
         return t.get('kind') == 'DeclRefExpr' and t['referencedDecl']['name'] == var
     return False
+
+
+def find_after(body, var, nfor, cname):
+    """in the block that declares `var`: the declarations of struct aliases (mzp_init_window) of that block, followed by
+    the first `nfor` for-loops after the declaration of `var` (other statements between them are calls of untranslated
+    functions and are not part of the slice)"""
+    found = []
+
+    def walk(n):
+        if n.get('kind') == 'CompoundStmt':
+            ch = n.get('inner', [])
+            for i, s in enumerate(ch):
+                if declares_or_assigns(s, var):
+                    pre = [x for x in ch[:i] if x.get('kind') == 'DeclStmt' and any(
+                        d.get('kind') == 'VarDecl' and (kind_of(d['type']['qualType']) or '') == 'p:?' and
+                        'mzp_init_window' in json.dumps(d) for d in x.get('inner', []))]
+                    fors = [x for x in ch[i + 1:] if x.get('kind') == 'ForStmt'][:nfor]
+                    if len(fors) == nfor:
+                        found.append(pre + fors)
+        for c in n.get('inner', []):
+            if isinstance(c, dict):
+                walk(c)
+    walk(body)
+    if len(found) != 1:
+        raise CTransError('%s: %d blocks declare %s followed by %d for-loops' % (cname, len(found), var, nfor))
+    return found[0]
 
 
 def find_slice(body, start, end, cname, nth=0, expect=1):
@@ -1313,6 +1435,16 @@ def catalogue(t):
     # --- recursive split points of ple.c / triangular.c
     one = lambda v: dict(start=v, end=v, outs=[v])
     F('m4ri/ple.c', '_mzd_ple', 'pleSplit', slice_=one('n1'))
+    F('m4ri/ple.c', '_mzd_ple', 'plePermUpdate', fuels=['(v_nrows).toNat', '(v_ncols).toNat', '(v_r2).toNat'],
+      slice_=dict(after='r2', take_for=3, outs=['mem1_P_values', 'mem1_Q_values']),
+      doc='the permutation bookkeeping after the second recursive call: P2 += r1, Q2 += n1, Q[r1..r1+r2) = Q[n1..n1+r2) (P2, Q2 are windows of P, Q)')
+    F('m4ri/ple.c', '_mzd_ple', 'plePermInit', fuels=['(v_A_nrows).toNat', '(v_A_ncols).toNat'],
+      slice_=dict(after='nrows', take_for=2, outs=['mem1_P_values', 'mem1_Q_values']),
+      doc='P[i] = i for the zero rows, Q[i] = i')
+    F('m4ri/mzd.c', 'mzd_extract_u', 'extractUClear', fuels=['(v_U_nrows).toNat', '(v_U_nrows).toNat'],
+      slice_=dict(after='k', take_for=1, outs=['mem_U']), doc='clearing the strictly lower triangle after the copy')
+    F('m4ri/mzd.c', 'mzd_extract_l', 'extractLClear', fuels=['(v_L_nrows).toNat', '(v_L_width).toNat'],
+      slice_=dict(after='k', take_for=1, outs=['mem_L']), doc='clearing the strictly upper triangle after the copy (excess bits kept)')
     F('m4ri/triangular.c', '_mzd_trsm_upper_right', 'trsmUpperRightSplit', slice_=one('nb1'))
     F('m4ri/triangular.c', '_mzd_trsm_lower_right', 'trsmLowerRightSplit', slice_=one('nb1'))
     F('m4ri/triangular.c', '_mzd_trsm_lower_left', 'trsmLowerLeftSplit', slice_=one('mb1'))
